@@ -130,8 +130,23 @@ claim("C01", "other",
       "(5) per single-tree executor stage the in-group half (.first) goes to the in-group wrapper and the out-of-group half (.second) to the mapper, both from the same builder call.",
       "Trusted: clang 14 + tbfscan; origin descriptors of stages.FnModel. Sibling skeletons are compared exactly: a one-sided or near-match difference is a violation, two restructured siblings are exit 2 (no verdict).",
       "control-skeleton agreement of sibling walks + partition / sort-before-search / routing rules over the clang AST", "DESIGN.md §8.7")
-NA["C04"] = "bound on a floating-point truncation error over all positions/heights/orders: nothing about it is visible in the shape of the code (accumulate clause is under C08, code conventions under C11)."
-NA["C05"] = "bound on a floating-point interpolation error; its batching clause is the accumulate/recompute rule decided under C08."
+claim("C04", "other",
+      "The accuracy bound (a floating-point truncation error over all particle positions, tree heights and expansion orders) is NOT decided - no static argument in reach bounds it. Decided are six structural necessary conditions, the places where the rotation kernel must agree with the tree it serves and with itself: "
+      "(1) level tables = geometry: the M2M / L2L / M2L translation tables are evaluated symbolically (exact closed forms of the table-building loops in box width W, height H, order P; geometric / arithmetic recurrences summarised) and proven, by induction over the order index, equal to (-b)^j/j!, b^j/j! with b = sqrt(3) W / 2^(level+2) and j!/(|offset| W / 2^level)^(j+1) for every offset of the 7x7x7 window outside the 3x3x3 core under the tree's position code; filled level ranges [0,H-2] / [1,H-1] inside the allocated extents; "
+      "(2) every table dimension is subscripted by what it was built for - the level argument, the position code of the child / source visited in this iteration; (3) the child-octant bit convention and polarity of the rotation tables is the Morton child code's (proved by C11.4), offset tables are stored under the tree's code of the vector they are built from; "
+      "(4) leaf centre = corner + (coordinate + 1/2) W / 2^(H-1), one function for P2M and L2P; (5) operator-reachable code writes no kernel member and keeps no static local (results independent of executor, schedule and earlier calls); (6) all constructors, in particular the copy constructor used for the per-worker kernels, initialise the same members and run the same table builders. "
+      "A wrong level width, an off-by-one level range, a table indexed by the item counter instead of the position code (invisible on dense trees), a mirrored octant, a member cached by an operator each break the stated accuracy for the inputs named in the report.",
+      "Trusted: clang 14 + tbfscan, sympy, the symx closed-form summariser (recurrences v*=c, v/=c, v+=c, v=-v only; anything else is opaque and cannot discharge an obligation), the operator role table, C06.6 for the configuration's leaf width. The spherical-harmonic formulas and the d-matrix recurrences are not examined.",
+      "symbolic closed forms of table-building loops (sympy, induction over the order index) + subscript-coherence, octant/offset convention, leaf-centre, member-write and constructor-agreement rules over the clang AST", "DESIGN.md §8.12")
+claim("C05", "other",
+      "The interpolation error bound is NOT decided. Decided are five structural necessary conditions under which the uniform kernel's results cannot depend on the executor, the schedule, earlier calls or the batching, and under which it agrees with the tree: "
+      "(1) isolation of kernel copies: every object holding scratch storage written by operator-reachable code (the FFT time / frequency buffers and plans) is held by value on every path from the kernel class and its copy constructor allocates new buffers; what copies share (interpolator, M2L operators) is never written by operator-reachable code; no operator-reachable static local; "
+      "(2) no carried state: in every operator-reachable function a scratch buffer is wholly written (memcpy / memset over its allocated extent) before a plan execution or anything else reads it, and no function hands out a pointer to a scratch buffer - a definite-assignment analysis over the member events of each function; "
+      "(3) batching: P2M and M2M end by recomputing the transformed expansion of their output cell from that cell's accumulated expansion (C08.1 decides that the real expansion accumulates); "
+      "(4) the transfer is scaled with W / 2^level of the operator's level argument, every per-child / per-source call gets the position code of the item whose expansion it gets, the relative child centres tabulated for the interpolators follow the Morton child code; "
+      "(5) leaf centre = (centre - W/2) + (coordinate + 1/2) W / 2^(H-1), shared by P2M and L2P.",
+      "Trusted: clang 14 + tbfscan, the kstate ownership graph (member types resolved through the declaring class's typedefs and bases; callees resolved through the declared class of the member they are called on), FFTW reading a plan's input and defining its output buffer, sympy. The interpolation formulas are not examined.",
+      "shared-state (ownership graph) and definite-assignment analysis of kernel scratch buffers + level-scaling, position-code and leaf-centre rules over the clang AST", "DESIGN.md §8.12")
 claim("C07", "other",
       "The invariant itself (sorted, disjoint, ancestor-closed for every occupancy pattern) is established by loops over run-time data and is NOT decided. Decided are five structural necessary conditions of the code that builds it (tree constructor, rebuild(), both group constructors, the particle sorter; a target/source tree is two such trees): "
       "(1) header = content: a group's recorded first / last index and count come from the first / last element and the length of the very sequence its cells are filled from, cell i <- element i over [0,n); leaf records are cut exactly where the particle's key changes, record c <- leaf c, offset = first particle; "
